@@ -323,9 +323,17 @@ def setStorage (cid : Nat) (m : Mod) (s : State) (live : List Live) : State × L
     | (s', live', none) => ({ s' with dstor := m.key }, live', none)
     | (s', live', some r) => (s', live', some r)
 
-/-- the "undo any other state changes" part of provisionContext's deferred rollback
-    (caddy.go:517-521): only if some configuration is current -/
+/-- restoreDefaultStorage (caddy.go, since fix e4caa40): make the storage of the configuration that
+    is running the process default again, or caddy's DefaultStorage if none is running. Called
+    wherever a configuration that was provisioned turns out not to be used. -/
 def restoreStorage (s : State) : State :=
+  match s.cur with
+  | some ctx => { s with dstor := ctx.stor }
+  | none => { s with dstor := 0 }
+
+/-- what the rollback did BEFORE fix e4caa40: only in provisionContext's own deferred function, and
+    only if some configuration was current -/
+def restoreStorageOld (s : State) : State :=
   match s.cur with
   | some ctx => { s with dstor := ctx.stor }
   | none => s
@@ -439,6 +447,34 @@ def run (cid : Nat) (c : Cfg) (e : Env) (s : State) : State × Option Ctx × Res
   | (s1, none, none) => (s1, none, .errProvision)   -- unreachable
   | (s1, some ctx, none) =>
     -- ctx.cfg.Admin.provisionAdminRouters(ctx) (caddy.go:427-432): on error cancel, nothing started
+    if e.adm = 2 then (restoreStorage (cancel cid ctx.cbs ctx.wkeys ctx.live s1), none, .errAdmin) else
+    match startApps cid e.blocked [] (order e.ps ctx.apps) s1 with
+    | (s2, false) => (restoreStorage (cancel cid ctx.cbs ctx.wkeys ctx.live s2), none, .errStart)
+    | (s2, true) =>
+      match finishSettingUp ctx e.post s2 with
+      | (s3, ctx', false) => (restoreStorage (unsyncedStop (some ctx') s3), none, .errPost)
+      | (s3, ctx', true) => (s3, some ctx', .ok)
+
+/-! #### the same BEFORE fix e4caa40 (kept for the non-vacuity theorem `default_storage_old_code_fails`):
+only provisionContext's deferred function restored the default storage, and only if a
+configuration was current; run's later failure paths and Validate did not -/
+
+def provisionContextOld (cid : Nat) (c : Cfg) (pp : List Nat) (s : State) : State × Option Ctx × Option Res :=
+  match openLogs cid c.logs s with
+  | (s1, live1, wk, some r) => (restoreStorageOld (cancel cid (onCancelOnCopy [] 0) wk live1 s1), none, some r)
+  | (s1, live1, wk, none) =>
+    match setStorage cid c.stor s1 live1 with
+    | (s1', live1', some r) => (restoreStorageOld (cancel cid (onCancelOnCopy [] 0) wk live1' s1'), none, some r)
+    | (s1', live1', none) =>
+    match loadApps cid (order pp c.apps) s1' live1' with
+    | (s2, live2, some r) => (restoreStorageOld (cancel cid (onCancelOnCopy [] 0) wk live2 s2), none, some r)
+    | (s2, live2, none) => (s2, some ⟨cid, c.apps, live2, wk, onCancelOnCopy [] 0, s2.dstor⟩, none)
+
+def runOld (cid : Nat) (c : Cfg) (e : Env) (s : State) : State × Option Ctx × Res :=
+  match provisionContextOld cid c e.pp s with
+  | (s1, _, some r) => (s1, none, r)
+  | (s1, none, none) => (s1, none, .errProvision)
+  | (s1, some ctx, none) =>
     if e.adm = 2 then (cancel cid ctx.cbs ctx.wkeys ctx.live s1, none, .errAdmin) else
     match startApps cid e.blocked [] (order e.ps ctx.apps) s1 with
     | (s2, false) => (cancel cid ctx.cbs ctx.wkeys ctx.live s2, none, .errStart)
@@ -446,6 +482,12 @@ def run (cid : Nat) (c : Cfg) (e : Env) (s : State) : State × Option Ctx × Res
       match finishSettingUp ctx e.post s2 with
       | (s3, ctx', false) => (unsyncedStop (some ctx') s3, none, .errPost)
       | (s3, ctx', true) => (s3, some ctx', .ok)
+
+def validateOld (c : Cfg) (e : Env) (s : State) : State × Res :=
+  match provisionContextOld s.next c e.pp s with
+  | (s1, _, some r) => (s1, r)
+  | (s1, none, none) => (s1, .errProvision)
+  | (s1, some ctx, none) => (cancel ctx.cid ctx.cbs ctx.wkeys ctx.live s1, .ok)
 
 /-- unsyncedDecodeAndRun (caddy.go:325-398) -/
 def decodeAndRun (cid : Nat) (c : Cfg) (e : Env) (s : State) : State × Res :=
@@ -491,12 +533,13 @@ inductive Op
   | stop                           -- caddy.Stop
 deriving DecidableEq, Repr
 
-/-- caddy.Validate: run(cfg, start = false) and cancel on success; the raw tree is not involved -/
+/-- caddy.Validate: run(cfg, start = false), cancel on success and put the default storage back;
+    the raw tree is not involved -/
 def validate (c : Cfg) (e : Env) (s : State) : State × Res :=
   match provisionContext s.next c e.pp s with
   | (s1, _, some r) => (s1, r)
   | (s1, none, none) => (s1, .errProvision)
-  | (s1, some ctx, none) => (cancel ctx.cid ctx.cbs ctx.wkeys ctx.live s1, .ok)
+  | (s1, some ctx, none) => (restoreStorage (cancel ctx.cid ctx.cbs ctx.wkeys ctx.live s1), .ok)
 
 def bump (p : State × Res) : State × Res := ({ p.1 with next := p.1.next + 1 }, p.2)
 
